@@ -138,6 +138,7 @@ var c16Fixed = []string{
 	"k := \"\"\nn := 0\nfor c := range \"ab\"\n    k = k + c\nend\nx := \"0\"\ny := \"1\"\nfor e := range [5 6]\n    k = k + \"|\"\n    n = n + e\nend\nz := \"0\"\n",
 	// concatenation with an empty operand is still a fresh array
 	"a := [1 2]\nb := a + []\nb[0] = 9\nc := [] + a\nc[1] = 8\nz := [0]\ne := z[1:]\nd := e + a\nd[0] = 7\nacc := z[1:]\nrow := [1 2]\nfor i := range 2\n    acc = acc + row\n    acc[0] = acc[0] + 10 + i\nend\n",
+	"acc := [0]\nfor i := range 1 3\n    acc = acc + [i*2]\nend\nw6 := acc + [6]\nw7 := acc + [7]\nw6[0] = -1\nsame := acc + acc[3:]\nsame[1] = 99\nw8 := w6 + [8]\nw9 := w6 + [9]\n",
 	// a block that declares nothing around a block that declares locals: the inner locals need slots of their own
 	"total := 0\nfor i := range 3\n    if i >= 0\n        bonus := 10\n        total = total + i + bonus\n    end\nend\n",
 	"r := 0\nwhile r < 1\n    if true\n        a := 5\n        r = 1 + a\n    end\nend\n",
